@@ -265,6 +265,7 @@ func runC03(t *mon.T, raw json.RawMessage) {
 			return bufio.NewReaderSize(bytes.NewReader(file), 16+int(d.Seed&63)), func() {}
 		}},
 		{"stutter reader ((0,nil) calls, data+EOF)", func() (io.Reader, func()) { return &lab.StutterReader{B: file}, func() {} }},
+		{"seeker, data+EOF", func() (io.Reader, func()) { return lab.EOFSeeker{R: bytes.NewReader(file)}, func() {} }},
 		{"bytes.Buffer (ByteReader, no Seek)", func() (io.Reader, func()) { return bytes.NewBuffer(append([]byte{}, file...)), func() {} }},
 		{"Reader.DataReader", func() (io.Reader, func()) {
 			rd, err := carv2.NewReader(bytes.NewReader(file), opts...)
